@@ -15,7 +15,7 @@ func init() {
 	register(&propDef{
 		ID: "C15",
 		Meta: propMeta{
-			Explanation: "Decides the shape of the worker retry protocol on every path: (R15a) the single attempt call in doRetry sits in a loop every iteration of which passes a `counter < bound` test on an induction variable (+const per iteration, bound from the configured retries or the default), and a failed attempt can reach the next attempt only through the true side of httperror.Temporary applied to that attempt's own error; every other failure returns that same error value unwrapped; (R15b) every return of doRetry whose error may be nil is guarded by a successful attempt, including the post-loop return, for which the zero-iteration path must be impossible (bound proved > initial counter on every incoming path); (R15c) after the backoff wait the caller's context is re-checked before the next attempt, and the per-attempt context derives from the request's context; (R15d) the worker handler dispatches (and touches the token) only after hmac.Equal on the per-process cookie returned true, and the refusal path answers 403; (R15e) every field of the RPC request/response structs is written by the producing side and read by the consuming side, Usage maps to KeyUsageError and Retryable to Temporary(); (R15f) the key cache returns a cached key only if no key id is pinned or the ids are bytes.Equal, never stores a key fetched under a pinned id, and is accessed under its mutex; the handler installs the pinned id in the context. (R15g) the token wrappers between the RPC handler and the real token (key cache, rate limiter) return the inner token's errors unwrapped: the handler classifies errors by exact type, so a wrapped error loses its retryable / key-usage classification. R15g also follows module helpers that wrap an error parameter. (R15h) the context (*WorkerToken).request attaches to the HTTP request is its caller's context or a child of it (context.WithTimeout/WithDeadline/WithCancel/WithValue, or a module helper returning such a child), never a context rooted elsewhere that only copies the deadline.",
+			Explanation: "Decides the shape of the worker retry protocol on every path: (R15a) the single attempt call in doRetry sits in a loop every iteration of which passes a `counter < bound` test on an induction variable (+const per iteration, bound from the configured retries or the default), and a failed attempt can reach the next attempt only through the true side of httperror.Temporary applied to that attempt's own error; every other failure returns that same error value unwrapped; (R15b) every return of doRetry whose error may be nil is guarded by a successful attempt, including the post-loop return, for which the zero-iteration path must be impossible (bound proved > initial counter on every incoming path); (R15c) after the backoff wait the caller's context is re-checked before the next attempt, and the per-attempt context derives from the request's context; (R15d) the worker handler dispatches (and touches the token) only after hmac.Equal on the per-process cookie returned true, and the refusal path answers 403; (R15e) every field of the RPC request/response structs is written by the producing side and read by the consuming side, Usage maps to KeyUsageError and Retryable to Temporary(); (R15f) the key cache returns a cached key only if no key id is pinned or the ids are bytes.Equal, never stores a key fetched under a pinned id, and is accessed under its mutex; the handler installs the pinned id in the context. (R15g) the token wrappers between the RPC handler and the real token (key cache, rate limiter) return the inner token's errors unwrapped: the handler classifies errors by exact type, so a wrapped error loses its retryable / key-usage classification. R15g also follows module helpers that wrap an error parameter. (R15h) the context (*WorkerToken).request attaches to the HTTP request is its caller's context or a child of it (context.WithTimeout/WithDeadline/WithCancel/WithValue, or a module helper returning such a child), never a context rooted elsewhere that only copies the deadline. (R15j) the worker's client decodes the JSON answer only under StatusCode == 200 (premise checked), and the worker's handler writes the marshalled workerrpc.Response with no preceding WriteHeader of another value: retryability and key-usage classification reach the client. (R15i) no function of the token packages that has a context parameter hands context.Background()/TODO() (or a child of one) to a call, directly or inside a module helper that takes no context (depth 2; goroutines excepted): a cancelled or timed-out caller is not kept queueing and the backend is not driven on its behalf.",
 			NotDecided:  "timing of backoff, what HSMs return, HTTP transport behaviour, and the dynamic count of attempts (only that each iteration passes the bound test).",
 			Assumptions: []string{"httperror.Temporary classifies by the dynamic type of the error value, so wrapping loses the classification"},
 		},
